@@ -187,7 +187,8 @@ def write_config(scn, base):
             kw = {k: g[k] for k in ("partition", "qos", "mem") if g.get(k)}
             hpc = HpcConfig(hpc_type="slurm", hpc=SlurmConfig(account="acct", walltime=f"0:{int(g.get('wall', WALL_MIN))}:00", **kw))
         sp = SubmitterParams(
-            hpc_config=hpc, generate_reports=bool(scn.get("reports", False)), resource_monitor_type="none",
+            hpc_config=hpc, generate_reports=bool(scn.get("reports", False)),
+            resource_monitor_type=scn.get("monitor", "none"), resource_monitor_interval=(1 if scn.get("monitor") else 10),
             per_node_batch_size=g["size"], time_based_batching=g["tb"], try_add_blocked_jobs=g["tryadd"],
             num_parallel_processes_per_node=(g["procs"] or None), max_nodes=(scn["maxnodes"] or None),
             dry_run=bool(g.get("dry", False)), verbose=bool(g.get("verbose", False)),
